@@ -897,6 +897,7 @@ type runeRingBuffer struct {
 	base       io.RuneReader
 	buf        [4]rune
 	start, end int
+	eof        bool
 }
 
 func newRuneRingBuffer(r io.RuneReader) runeRingBuffer {
@@ -905,8 +906,12 @@ func newRuneRingBuffer(r io.RuneReader) runeRingBuffer {
 
 func (b *runeRingBuffer) ReadRune() (rune, int, error) {
 	if b.empty() {
+		if b.eof {
+			return 0, 0, io.EOF // We must not read again beyond the end of the stream.
+		}
 		r, n, err := b.base.ReadRune()
 		if err != nil {
+			b.eof = err == io.EOF
 			return r, n, err
 		}
 		b.put(r)
